@@ -899,6 +899,7 @@ def confirm(S, info, prop='C03', only_width=False):
 
 # documents that show a defect recorded as an open known finding: the key carries the document's id, so that nothing else is suppressed
 KNOWN_DEFECT_DOCS = {
+    '#let f = (((_))) => 1\n': 'placeholder-parameter-in-nested-parentheses',
     '#f(a, /* @typstyle off */\n b  +  c)\n': 'directive-comment-behind-a-comma',
     '$ mat(a, // c\n b; c) $\n': 'math-row-with-a-line-comment',
     '* - a\nb *\n': 'strong-body-that-starts-with-a-dash',
